@@ -174,3 +174,8 @@ Definition go_copy {A} (x : list A) (a : Z) (src : list A) : gres (list A * Z) :
 
 (* a call that the hand-written model of an external function does not cover *)
 Definition PUnmodelled : N := 100%N.
+
+(* ---------- uint16 / uint32 / uint64: N with wrap-around modulo 2^w ---------- *)
+Definition uint_wrap (w : N) (x : N) : N := (x mod 2 ^ w)%N.
+(* uintW(x) for an int (or int32) x: two's complement truncation *)
+Definition uint_of_int (w : N) (x : Z) : N := Z.to_N (x mod 2 ^ Z.of_N w).
